@@ -89,3 +89,11 @@ func VfReadObject(versioning bool, versionID string) ([]byte, error) {
 	}
 	return io.ReadAll(g.Body)
 }
+
+// VfWorldWithBucket builds the model file system with an empty bucket "bkt".
+func VfWorldWithBucket() *Posix {
+	vfWorld()
+	p := vfNewPosix(vfConfig{})
+	zzvf.Assert(p.CreateBucket(vfCtxOf("root"), &s3.CreateBucketInput{Bucket: vfStr("bkt")}, vfACL("root")) == nil, "setup-create-bucket")
+	return p
+}
